@@ -101,7 +101,7 @@ E2_ASSUME = [
 PROPS["C15"] = dict(
     level="exploration", engine="enum", title="WOPN/OPNI serialisation round-trips and never writes past its buffer",
     technique="exhaustive enumeration of finite value/size/byte-string families against a field-by-field round-trip oracle with guard bytes (narrow seam: wopn_file.c called directly)",
-    level_text="Every value of the listed families (each instrument field over its full range one at a time, all name lengths, bank numbers, counts, header values, blank/delay pairs, versions 1/2), every destination size 0..needed+2, "
+    level_text="Every value of the listed families (each instrument field over its full range one at a time, all name lengths, bank numbers, counts, header values, blank/delay pairs, versions 1/2), every destination size 0..needed+2 for a 1+1 bank and every section/instrument boundary +-1 and multiple of 65536 for shapes up to 128 banks, "
                "and every single-byte header substitution / listed accepted shape is saved and loaded on the real code and compared with the expectation derived from the statement. Complete for those families, silent outside them.",
     level_note="domain decisions: midi_velocity_offset and the pseudo-8-op flag are not carried by the format and are kept 0; version 2 encodes 'blank' as 'both delays zero' (equality modulo that documented canonicalisation); "
                "names compare as C strings; 'too small' is measured against the bytes a successful save really writes (the size calculator reports 2 bytes more than version 1 needs)",
@@ -122,10 +122,10 @@ PROPS["C02"] = dict(
 
 PROPS["C01"] = dict(
     level="exploration", engine="enum", title="untrusted music data never crashes, corrupts memory or hangs the player",
-    technique="exhaustive enumeration of parser-distinguishing byte-alphabet strings, 1-deviation neighbourhoods of well-formed seeds of 9 formats, boundary values of every header field, extreme variable-length quantities and scaling patterns through opn2_openData on exact-size heap blocks under ASan, with canonical and all depth-2 follow-up call sequences under CPU and heap budgets",
-    level_text="Every member of the listed families is loaded through the public API (wide seam) on a block of exactly its size and, when accepted, driven through play/tick/seek/rewind/song-select/metadata/loop/track-option calls. "
+    technique="exhaustive enumeration of parser-distinguishing byte-alphabet strings, 1-deviation neighbourhoods of well-formed seeds of 9 formats, boundary values of every header field, extreme variable-length quantities, wrap-around length fields, loop-marker rows on two tracks, device-switch name counts, second loads over a playing song and scaling patterns through opn2_openData on exact-size heap blocks under ASan, with canonical and all depth-2 follow-up call sequences under CPU and heap budgets",
+    level_text="Every member of the listed families is loaded through the public API (wide seam) on a block of exactly its size and - whether the loader accepted or rejected it - driven through play/tick/seek/rewind/song-select/metadata/loop/track-option calls. "
                "Oracle: AddressSanitizer with annotated vectors and strict bounds, fatal signals, uncaught exceptions, CPU-time budget per case, peak-heap budget linear in the input size, 0/-1 return with a non-empty error text.",
-    level_note="strings outside the families (longer than the alphabet bound, more than one deviation from a seed in the quick tier, three coordinated fields) are not covered; the heap budget is 24 MiB + 4 KiB per input byte; real emulator cores are replaced by null chips",
+    level_note="strings outside the families (longer than the alphabet bound, more than one deviation from a seed in the quick tier, three coordinated fields) are not covered; the heap budget is 24 MiB + 16 KiB per input byte (a 5-byte device switch legitimately adds 16 MIDI channels); real emulator cores are replaced by null chips",
     legs=[Leg("loader", ["models/c01_music.cpp"], "asan", [], [], timeout_quick=2400, timeout_thorough=14000)],
     rule="one case per (family, index); duplicates produced by a mutation that leaves the seed unchanged are skipped; non-trivial when opn2_openData accepted the input and the follow-up calls ran on it",
     assumptions=E2_ASSUME + ["null chips (chip factory hook)", "follow-up alphabet: 19 calls (play 64/4096/long, tick, 5 seeks, rewind, 4 song selections, tell/length, metadata incl. out-of-range indices, loop on, track options, channel off, atEnd)"],
@@ -141,7 +141,7 @@ PROPS["C07"] = dict(
     level="model_checking", engine="enum", title="the sequencer delivers every file event once, in order, at the right time",
     technique="exhaustive enumeration of all SMF files of a bounded grammar; every file is played on the real library and the delivered event trace is compared with an independent SMF reference interpreter (reference model, every trace replayed on the implementation)",
     level_text="For every file of the grammar x tempo multipliers x track/channel masks x drivers (self-fed opn2_tickEvents, fixed-step ticks, opn2_play with 5 request sizes) the delivered stream must be exactly the reference stream: "
-               "each event once, per-track order, the three same-tick ordering rules, absolute times from the tempo map scaled by the multiplier, End-of-Track skipping, reported length, audio position window [t*rate-512, t*rate], key-ons at the chips for enabled tracks/channels only.",
+               "each event once, per-track order, the same-tick ordering rules (controllers before note-ons; among note events of one key the file order, except that the first note-off of a key sounding before the tick goes in front of every note-on), absolute times from the tempo map scaled by the multiplier, End-of-Track skipping, reported length, audio position window [t*rate-512, t*rate], key-ons at the chips for enabled tracks/channels only.",
     level_note="reference interpreter written from the SMF specification and the statement (models/seq_sem.cpp reference()); loop markers and CC110/111 are left to C09; tempo events only in track 0 (well-formed format 1); nothing is asserted about the order of different tracks at the same instant",
     legs=[Leg("smf", SEQ_SRC, "fast", ["--prop", "C07"], ["--prop", "C07"], timeout_thorough=14000)],
     rule="states = files of the grammar (one per index); transitions = events delivered and compared; a case is non-trivial when the file loaded and its complete trace matched the reference",
@@ -159,7 +159,7 @@ PROPS["C08"] = dict(
 )
 PROPS["C09"] = dict(
     level="model_checking", engine="enum", title="loop points: the marked section repeats exactly as often as requested",
-    technique="exhaustive enumeration of marker placements (0..2 markers x every tick x track, valid and invalid) x loop on/off x counts x hook registration orders x resets/loads in between; reference loop semantics from the statement replayed against the real sequencer",
+    technique="exhaustive enumeration of marker placements (0..2 markers x every tick x track, 3 markers in the thorough tier, valid and invalid) x loop on/off x counts x hook registration orders x resets/loads in between x start {after load, after rewind, after seek to 0, after a seek into the song before the loop end}; reference loop semantics from the statement replayed against the real sequencer",
     level_text="Every placement is played on the library; per track the delivered tick sequence must equal prefix + N x body + tail (first 5 passes for count -1), the end of song must be reported, the first event after every jump must see no keyed-on chip channel (All-Notes-Off), "
                "loop-end callbacks = arrivals at loop end + song end, loop-start callbacks = passes, also when hooks are registered before opn2_openData / opn2_reset / opn2_switchEmulator.",
     level_note="don't-cares: events sharing the tick of the loopEnd marker; count 0 is treated as one pass; the song ends at the tick of its last event (lone End-of-Track rule), so a loopStart there is an invalid (empty) loop",
@@ -173,7 +173,7 @@ PROPS["C17"] = dict(
     technique="exhaustive enumeration of bounded grammars of MUS scores, XMI sequences and RMI/GMF wrappings; independent MUS and XMI reference interpreters and a differential oracle against the bare SMF, every trace replayed on the real loader and sequencer",
     level_text="Every grammar member is loaded through opn2_openData and played; the channel events reaching the synthesizer must be the event sequence the source format defines (MUS channel 15 -> percussion, controller table, remembered note volumes, pitch wheel scaling; XMI note durations -> note-offs, selected song) "
                "with inter-event times proportional to source ticks at 140 Hz +-2.5 % (MUS) / 120 Hz (XMI with its tempo); RMI must equal the bare SMF event for event and time for time, GMF up to the constant ratio 96/192.",
-    level_note="events sharing a source tick are matched as a set (the sequencer's same-tick ordering is C07's subject); the converter's own CC7=100 on a channel's first use is neither required nor forbidden; first note volume of a MUS channel is always given explicitly (the format's default is not defined by the statement)",
+    level_note="events sharing a source tick are matched as a set (the sequencer's same-tick ordering is C07's subject); the converter's own CC7=100 is tolerated only where it can be attributed (first use of that MIDI channel, percussion channel at song start, score end) and is never required; every XMI song carries its own tempo; first note volume of a MUS channel is always given explicitly (the format's default is not defined by the statement)",
     legs=[Leg("conv", SEQ_SRC, "fast", ["--prop", "C17"], ["--prop", "C17"], timeout_thorough=14000)],
     rule="one case per grammar member; non-trivial when the file loaded and the complete delivered trace matched the reference interpreter",
     assumptions=SEQ_ASSUME,
@@ -211,7 +211,7 @@ PROPS["C10"] = dict(
 )
 PROPS["C11"] = dict(
     level="exploration", engine="enum", title="loudness controls are monotone and stay within the chip's level range",
-    technique="exhaustive sweep velocity x channel volume x expression (127 x 128 x 128) x master volume {0,1,64,127} x 5 volume models x 3 algorithms, and brightness 0..127 x flag x 8 algorithms x modulator scaling x operator level 0..127 x 16 volumes x 5 models, through the real note-update path with a tap on registers 0x40..0x4F",
+    technique="exhaustive sweep velocity x channel volume x expression (127 x 128 x 128) x master volume {0,1,64,127} x 5 volume models x 3 algorithms (13 master volumes x 8 algorithms in the thorough tier), every ordered pair of values of master volume / CC7 / CC11 sent to a sounding note, and brightness 0..127 x flag x 8 algorithms x modulator scaling x operator level 0..127 x 16 volumes x 5 models, through the real note-update path with a tap on registers 0x40..0x4F",
     level_text="For every grid point the total-level values written lie in 0..127 (raw, untruncated values from the tap), carrier attenuation never rises along any of the four loudness axes, zero volume/expression/master silences the carriers, modulators keep the patch value unless scaling or reduced brightness applies, and lowering brightness never lowers an attenuation.",
     level_note="velocity and master monotonicity are checked between neighbouring cases by running the neighbour in a second/third instance point by point; controller values above 127 belong to C03",
     legs=[Leg("levels", ["models/c11_volume.cpp"], "fast", [], [])],
@@ -221,7 +221,7 @@ PROPS["C11"] = dict(
 
 PROPS["C13"] = dict(
     level="exploration", engine="enum", title="audio calls fill exactly what they report, in the requested sample format",
-    technique="exhaustive enumeration of request sizes x 10 sample types x 4 container sizes x 3 buffer layouts x 8 emulator cores x chip counts x loud/quiet x generate/play; guard-byte accounting with two poison patterns, return-value contract and a conversion table checked sample by sample against the F64 rendering of the same history",
+    technique="exhaustive enumeration of request sizes (boundary set, plus every size 0..40 and around multiples of 1024; every size 0..2200 in the thorough tier) x 10 sample types x 4 container sizes x 3 buffer layouts x 8 emulator cores x chip counts x loud/quiet x generate/play; guard-byte accounting with two poison patterns, return-value contract and a conversion table checked sample by sample against the F64 rendering of the same history",
     level_text="Each configuration renders the same call history three times (F64 reference, two poison patterns). Exactly the reported number of samples must be stored at left/right + i*sampleOffset, every other byte of the guarded buffers must keep its poison, "
                "the return value must be the request rounded down to even (0 for negatives; at most that for play, 0 only at the end of the song), supported pairs must be the documented conversion (saturation, unsigned offsets, scaling, /32767 for floats) of the integer signal recovered from the F64 run, unsupported pairs must return 0 and write nothing.",
     level_note="guards are 64 bytes on each side (the ASan leg sees anything further); relies on the cores being deterministic across three instances with identical histories (C14's subject: a difference is reported as nondeterministic-return / F64 not reproducible)",
@@ -254,7 +254,7 @@ PROPS["C18"] = dict(
 
 PROPS["C03"] = dict(
     level="model_checking", engine="mcx", title="any sequence of API calls on a live instance is memory-safe and terminates",
-    technique="explicit-state model checking of the whole exported C API (BFS by history replay under AddressSanitizer with annotated vectors and strict bounds): every exported function with boundary-valued arguments from 7 start states; deeper levels on an out-of-range real-time subset and on the real emulator cores",
+    technique="explicit-state model checking of the whole exported C API (BFS by history replay under AddressSanitizer with annotated vectors and strict bounds): every exported function with boundary-valued arguments from 7 start states; deeper levels on an out-of-range real-time subset, on the real emulator cores, and on bank create/remove/lookup histories over ids that collide in the bank map (against a set model, to closure of the reachable structure)",
     level_text="Every sequence of up to D calls over ~400 boundary-valued operation instances covering all 90 exported functions (the op table is checked against include/opnmidi.h on every run), from 7 start states, is executed on the library. "
                "Oracle: no sanitizer report, fatal signal, abort or uncaught exception, every call inside its CPU budget, and calls documented to fail (bad chip count, emulator, device id, bank id, indices, negative sizes, unsupported formats, malformed files, NULL device) return their error value.",
     level_note="the statement's 400-call horizon is not reached: what is claimed is every sequence up to the completed depth from each start state; pointers other than the device always reference valid, exactly sized objects (malloc'ed at the request size so that ASan red zones sit directly behind them); NDEBUG build as shipped",
@@ -271,7 +271,7 @@ PROPS["C03"] = dict(
 PROPS["C14"] = dict(
     level="model_checking", engine="sched", title="instances are deterministic and isolated, also across threads",
     technique="exhaustive enumeration of all call-granularity interleavings of two and three instance histories on one thread for all core pairs, and preemption-bounded exhaustive schedule exploration of two real threads under a serialising scheduler (iterative context bounding over API-call boundaries and library yield points, every execution in a fresh process); free-running ThreadSanitizer pass for unsynchronised accesses",
-    level_text="The observed instance's PCM and chip-register stream must equal its solo run bit for bit under every interleaving (70 per pair, 90 per triple) and every thread schedule within the completed preemption bound, for all 8 x 8 core pairs incl. both Nuked modes, differing sample rates and run-at-PCM-rate; solo outputs must be identical across runs and across the 'pattern' and 'zero' auto-variable initialisation builds; "
+    level_text="The observed instance's PCM and chip-register stream must equal its solo run bit for bit under every interleaving (70 per pair, 90 per triple) and every thread schedule within the completed preemption bound, for all 8 x 8 core pairs incl. both Nuked modes, differing sample rates, run-at-PCM-rate and chip families, with both histories re-writing the LFO register after the other instance may have been created; solo outputs must be identical across runs and across the 'pattern' and 'zero' auto-variable initialisation builds; "
                "the TSan leg runs the same bodies free-running on 2..8 threads and reports data races by racing object.",
     level_note="scheduling points are API-call boundaries and the guarded yield points (no locks/atomics exist in the library to hook); memory orderings weaker than sequential consistency are left to TSan's happens-before analysis of the executed accesses; TSan's set of reported races is not exhaustive",
     legs=[
